@@ -448,6 +448,36 @@ func (ma *ModAnalysis) call(fn *ssa.Function, cc *ssa.CallCommon, mi *modInfo) {
 func (ma *ModAnalysis) calleeAt(fn *ssa.Function, cc *ssa.CallCommon, callee *ssa.Function, mi *modInfo) {
 	tmp := newModInfo()
 	ma.callee(callee, tmp)
+	// closures / function values passed as arguments may be called by the callee: include their effects
+	for _, a := range cc.Args {
+		switch f := a.(type) {
+		case *ssa.MakeClosure:
+			sub := ma.info(f.Fn.(*ssa.Function))
+			for v := range sub.allVars() {
+				tmp.vars[v] = true
+			}
+			for v := range sub.allocVars {
+				tmp.allocVars[v] = true
+			}
+			if sub.allocates {
+				tmp.allocates = true
+			}
+			if sub.all {
+				tmp.all = true
+				tmp.why = "closure argument " + f.Fn.Name()
+			}
+		case *ssa.Function:
+			if f.Pkg == ma.ex.pkg {
+				sub := ma.info(f)
+				for v := range sub.allVars() {
+					tmp.vars[v] = true
+				}
+				if sub.all {
+					tmp.all = true
+				}
+			}
+		}
+	}
 	pw := tmp.paramWrites
 	tmp.paramWrites = map[int]map[string]bool{}
 	mi.merge(tmp)
